@@ -213,6 +213,10 @@ def iterRangeShape(self, start, end, step=1, tick=True):
 
     for c in range(start, end, step):
         p = self.getPayload(c)
+
+        if is_collecting and tick:
+            Metrics.addUse(rank, c, c)
+
         yield CoordPayload(c, p)
 
         if is_collecting and tick:
@@ -247,6 +251,10 @@ def iterRangeShapeRef(self, start, end, step=1, tick=True):
 
     for c in range(start, end, step):
         p = self.getPayloadRef(c)
+
+        if is_collecting and tick:
+            Metrics.addUse(rank, c, c)
+
         yield CoordPayload(c, p)
 
         if is_collecting and tick:
